@@ -93,7 +93,12 @@ def compute_contact_force(
     X = np.vstack((tetrahedron.T, np.ones((1, 4))))
     com = np.empty(4, dtype=np.dtype("float"))
     com[3] = 1.0
-    triangles = TRIANGLES[:len(contact_polygon) - 2]
+    if len(contact_polygon) <= 8:
+        triangles = TRIANGLES[:len(contact_polygon) - 2]
+    else:
+        # Nearly coinciding vertices that have not been merged can result in
+        # polygons with more than 8 vertices.
+        triangles = tesselate_ordered_polygon(len(contact_polygon))
     for triangle in triangles:
         vertices = contact_polygon[triangle]
         com[:3] = (vertices[0] + vertices[1] + vertices[2]) / 3.0
